@@ -10,6 +10,13 @@ VERIF_C17_STRICT=1 drops the KNOWN_* defines (the affected obligations then come
 """
 import os
 from vlib.runner import Ob
+from vlib.extract import c_functions
+
+
+def _extract_foreach(txt):
+    """scratch copy of cache.c: file head (includes, configuration macros) + the one function under test, from the CURRENT source"""
+    return c_functions(txt, ["_vbi_cache_foreach_page"], keep_head_until=r"^static void$")
+
 
 STRICT = True   # the defects these guards masked are fixed in /repo; the obligations state the property as written
 
@@ -37,9 +44,27 @@ STUBS = ["_vbi_cache_foreach_page = harness model: walks the cached subset of a 
          "src/search.c compiled from a scratch copy: return type of the vbi_search_next definition aligned with its prototype"]
 
 
+def _fe(**kw):
+    return kw
+
+
+# page numbers / subpage windows / presence mask (bit c*3+s) / start page / direction
+FOREACH_GRID = [
+    _fe(NC=2, PG0=0x150, PG1=0x151, SM0=0, SM1=1, PRES=0b001101, START_PG=0x200, START_SUB=0, DIR=1),      # nothing cached at or above the start page (4f8119b)
+    _fe(NC=2, PG0=0x150, PG1=0x151, SM0=0, SM1=1, PRES=0b001101, START_PG=0x120, START_SUB=-1, DIR=-1),    # nothing cached at or below it, VBI_ANY_SUBNO
+    _fe(NC=2, PG0=0x150, PG1=0x151, SM0=0, SM1=1, PRES=0b110011, START_PG=0x150, START_SUB=1, DIR=1),      # start page cached, several subpages
+    _fe(NC=2, PG0=0x150, PG1=0x151, SM0=0, SM1=1, PRES=0b110011, START_PG=0x151, START_SUB=-1, DIR=-1),    # VBI_ANY_SUBNO on a page with two cached subpages
+    _fe(NC=2, PG0=0x150, PG1=0x151, SM0=0, SM1=1, PRES=0b110011, START_PG=0x150, START_SUB=2, DIR=-1),     # start subpage inside the statistics window but not cached
+    _fe(NC=3, PG0=0x100, PG1=0x47A, PG2=0x8FF, SM0=0, SM1=0x10, SM2=2, PRES=0b101010001, START_PG=0x8FF, START_SUB=5, DIR=1),   # first/last page number, hex page, start above the window
+    _fe(NC=3, PG0=0x100, PG1=0x47A, PG2=0x8FF, SM0=0, SM1=0x10, SM2=2, PRES=0b101010001, START_PG=0x100, START_SUB=0, DIR=-1),
+    _fe(NC=2, PG0=0x150, PG1=0x151, SM0=0, SM1=1, PRES=0b010000, START_PG=0x151, START_SUB=2, DIR=1),      # one page only, walk starts on it
+]
+
+
 def obligations(tier, seed):
     known = {}   # fixed in /repo (known_findings.json)
     common = dict(harness="h_c17.c", stubs=STUBS)
+
     walk_desc = ("up to NCALLS successive vbi_search_next calls, direction symbolic per call, start page/subpage symbolic (0x100..0x8FF incl. hex numbers, "
                  "subpage valid or VBI_ANY_SUBNO), universe of NP pages (page number, subpage, LOP or not, matching or not, position of the occurrence: all "
                  "symbolic), which of them are cached symbolic per call: every call returns (walk model asserts the callback stops it within one wrapped "
@@ -71,7 +96,66 @@ def obligations(tier, seed):
            outside="note: characters >= 0x100 whose low byte is NUL or a metacharacter get a (harmless) backslash too - strchr() converts its int argument to char; "
                    "-DC17_STRICT_ESCAPE turns that into a failure",
            reach=["end", "empty", "harmless_extra_backslash", "all_escaped"], timeout=300, mem_gb=4, vin_size=32, **common),
-        # haystack construction (h_c17_haystack in harness/h_c17.c) is NOT registered: no encoding produced a verdict.  Measured: 23 rows, symbolic
+        Ob("foreach_real", harness="h_c17_foreach.c", func="h_c17_foreach",
+           desc="the REAL _vbi_cache_foreach_page (extracted from the current cache.c) over the real per-page statistics table: callback sees exactly the cached pages in cyclic "
+                "(pgno, subno) order from the start position (ascending / descending), `wrapped' FALSE until the page number wrapped, none skipped, one reference each, given "
+                "back; a non-zero callback result ends the walk and is returned; nothing cached: 0; a callback that never stops: the walk ENDS with -1 after one wrapped cycle "
+                "(unwinding assertions = termination; this is the contract the model of the walk obligation assumes)",
+           encodes=["_vbi_cache_foreach_page", "cache_network_page_stat"], patch={"src/cache.c": _extract_foreach},
+           stubs=["_vbi_cache_get_page = look-up in a population of NC x W slots (page numbers and subpage windows from the grid), counts references; VBI_ANY_SUBNO: "
+                  "symbolic choice among the cached subpages of the page", "cache_page_unref = reference counter",
+                  "cache.c reduced to its head and _vbi_cache_foreach_page by textual extraction from the current source"],
+           assumes=["statistics invariant of cache.c (C10: seq_put_put*, subno range obligations): n_subpages == number of cached subpages of the page, "
+                    "subno_min <= cached subno <= subno_max (range possibly wider)"],
+           # measured (loaded machine): 223 s / 92 MB per instance, all of it symex (2 x 0x800 iterations of the skip loop at 20-50 ms: every statistics read copies
+           # the 2048-entry array constant); 10 K variables for the solver.  Default field sensitivity: 0.5 s per iteration (each `ps->' expands all fields of the 43 KB
+           # cache_network); statistics set by assignments instead of a static initialiser: reads do not fold, no verdict in 600 s
+           tier="thorough", flags=["--max-field-sensitivity-array-size", "4"],
+           grid=FOREACH_GRID, unwind=8, unwindset={"_vbi_cache_foreach_page.1": 40, "_vbi_cache_foreach_page.0": 2060},
+           bounds="populations: <= 3 page numbers x windows of 3 subpage numbers, page numbers and windows on the grid (two neighbours below the start page = the scenario of "
+                  "4f8119b, first/last page number, hex page, start page cached / not cached), presence mask of the 6..9 slots, start page and subpage (cached, inside the window "
+                  "but not cached, above it, VBI_ANY_SUBNO) on the grid, both directions; symbolic: the callback invocation that stops the walk (or none) and its result, the VBI_ANY_SUBNO choice",
+           outside="subpage windows wider than 3 (clock pages 0x0000..0x2359: the walk then probes every number in between, 9000 look-ups per page); hash and priority lists "
+                   "behind _vbi_cache_get_page (C10); symbolic presence masks (page number becomes a symbolic pointer into the 0x800 entry table: measured, see report)",
+           reach=["end", "stopped", "full_cycle"], timeout=900, mem_gb=4, vin_size=32),
+        Ob("haystack_rows", func="h_c17_haystack",
+           desc="haystack construction of search_page_fwd on the full 25 x 41 page, size attributes of the 4 special cells per row fixed by the grid, their characters "
+                "symbolic: the text handed to the matcher is rows 1..23 (not 0, not 24), 40 columns each, left to right, one character per NORMAL / DOUBLE_HEIGHT / "
+                "DOUBLE_WIDTH / DOUBLE_SIZE cell, nothing for continuation cells, one separator per row; length == sum of the row lengths <= buffer; matcher run once from offset 0",
+           encodes=["search_page_fwd", "vbi_search_next", "vbi_search_new"], defines={"NP": 1, "HC": 2, "OCC": 0}, patch=PATCH,
+           grid=[dict(SIZES=z) for z in (0, 1400, 3400, 2006, 14, 6060)], quick_grid=[dict(SIZES=0), dict(SIZES=1400)],
+           unwind=42, unwindset=dict(us, **{"search_page_fwd.1": 25, "search_page_fwd.0": 42, "h_c17_haystack.0": 3}),
+           flags=["--max-field-sensitivity-array-size", "4"],
+           bounds="rows 1 and 2: cells at columns 0, 1, 39, 40 carry grid-fixed size attributes (SIZES digits) and symbolic characters / attributes; all other cells blank NORMAL_SIZE",
+           outside="symbolic size attributes (write position in the haystack symbolic: no verdict, see below); search_page_rev's copy of the loop; continuation inside a page",
+           reach=["end"], timeout=600, mem_gb=4, vin_size=96, **common),
+        Ob("highlight_positions", func="h_c17_highlight",
+           desc="continuation positions left by highlight() for a match [ms, me) at ANY place of a page of NORMAL_SIZE cells: (row[0], col[0]) = first cell at or behind the end "
+                "of the match (LAST_ROW+1 / 0 when it ends with the page) - where search_page_fwd resumes; (row[1], col[1]) = the cell the match starts in - where "
+                "search_page_rev stops, so that an occurrence is returned once; page number remembered; all cell accesses inside the page",
+           encodes=["highlight"], defines={"NP": 1, "KNOWN_C17_HIGHLIGHT_ROW1": None}, patch=PATCH, unwind=42, unwindset=dict(us, **{"highlight.0": 42, "highlight.1": 25}),
+           flags=["--max-field-sensitivity-array-size", "4"],
+           assumes=["match does not begin on a row separator", "KNOWN_C17_HIGHLIGHT_ROW1: ms > 0 (candidate defect, obligation highlight_first_cell)"],
+           bounds="ms < me <= 943 symbolic; all cells NORMAL_SIZE (offset of a cell concrete)", outside="pages with double width / size cells (offset of a cell symbolic)",
+           reach=["end", "match_ends_with_page"], timeout=900, mem_gb=6, vin_size=32, **common),
+    ] + ([
+        # CANDIDATES (only with VERIF_CANDIDATES=1): refute the unchanged tree (TODO-defect-candidates.md items 8, 9)
+        Ob("highlight_first_cell", func="h_c17_highlight",
+           desc="highlight_positions without the assumption ms > 0: a match beginning in row 1 column 0 leaves row[1]/col[1] stale (they are written only for cells in front "
+                "of the match), the next backward call finds the same occurrence again - NOT_FOUND never comes",
+           encodes=["highlight"], defines={"NP": 1}, patch=PATCH, unwind=42, unwindset=dict(us, **{"highlight.0": 42, "highlight.1": 25}),
+           flags=["--max-field-sensitivity-array-size", "4"], bounds="as highlight_positions", reach=["end", "match_in_first_cell"], timeout=900, mem_gb=6, vin_size=32, **common),
+        Ob("foreach_real_start_outside_window", harness="h_c17_foreach.c", func="h_c17_foreach",
+           desc="foreach_real with the start subpage OUTSIDE the subpage range of a start page that has cached subpages ahead: forward from subpage 0 of a page caching subpages "
+                "1..3 (what vbi_search_new(pgno, VBI_ANY_SUBNO) does for every multi-subpage page), backward from 0x3F7E: the skip loop leaves the page instead of entering "
+                "its range, its subpages are presented only after the wrap - where search_page_fwd/_rev stop before searching them",
+           encodes=["_vbi_cache_foreach_page"], patch={"src/cache.c": _extract_foreach}, flags=["--max-field-sensitivity-array-size", "4"],
+           grid=[_fe(NC=2, PG0=0x150, PG1=0x151, SM0=0, SM1=1, PRES=0b011001, START_PG=0x151, START_SUB=0, DIR=1),
+                 _fe(NC=2, PG0=0x150, PG1=0x151, SM0=0, SM1=1, PRES=0b011001, START_PG=0x151, START_SUB=0x3F7E, DIR=-1)],
+           unwind=8, unwindset={"_vbi_cache_foreach_page.1": 40, "_vbi_cache_foreach_page.0": 2060}, bounds="2 populations",
+           reach=["end"], timeout=900, mem_gb=4, vin_size=32),
+    ] if os.environ.get("VERIF_CANDIDATES") else []) + [
+        # haystack construction with SYMBOLIC sizes (h_c17_haystack without SIZES) is NOT registered: no encoding produced a verdict.  Measured: 23 rows, symbolic
         # cells: timeout 300 s; 2-row slice (LAST_ROW = 3), 2 x 5 symbolic cells: 7.5 GB then out of memory at 170 s; 1 row, 4 cells: 10 GB at 100 s; size
         # attributes enumerated on the grid (all pointers concrete), 23 rows: symex ~20 s per row and growing (> 8 min); same on the 2-row slice: 7.5 GB /
         # 300 s in the propositional phase, also with --no-array-field-sensitivity (10.5 GB / 400 s) and --max-field-sensitivity-array-size 1100
